@@ -768,6 +768,8 @@ def r9(ctx):
                         'the region filter of the worker wakes up and drops molecules whose site lies before base 0 or at / behind the contig end (clipped or '
                         'site-shifted fragments at a contig border)')
 def r10(ctx):
+    from . import C08
+    C08.whole_contig_task_unwindowed(ctx, 'C05-R10')
     f = ctx.fn(BTM, MP)
     branch = [s_ for s_ in walk_no_nested(f) if isinstance(s_, ast.If) and 'one_contig_per_process' in names_in(s_.test)]
     tuples = []
@@ -816,6 +818,54 @@ def r11(ctx):
     ctx.emit('C05-R11', bad is None, FRAGMENT, marks[0], f'{n} paths: every set_rejection_reason(.., set_qcfail=True) of the constructor is followed by self.qcfail = True' if bad is None else
              f'the reads are marked rejected at line {bad[0]} but the constructor ends without self.qcfail = True: the fragment stays valid (path ...{bad[1]})', key='reads-rejected-implies-fragment-invalid',
              what='Fragment.__init__: reads flagged qc-fail / RR while the fragment itself stays valid (kept by --no_rejects)')
+
+
+def fragment_writes_all_reads(ctx, rid):
+    """Fragment.write_pysam, run by the abstract interpreter on every occupancy of the two mate slots, hands every present read to the output handle exactly once, in slot order"""
+    from ..consteval import run_function, Raised, Unfoldable, LocalFn
+    f = ctx.fn(FRAGMENT, 'Fragment.write_pysam')
+    meths = {m.name: m for m in ctx.ix.cls(FRAGMENT, 'Fragment').body if isinstance(m, ast.FunctionDef)}
+    bad, n = None, 0
+    try:
+        for reads in (['r1', 'r2'], [None, 'r2'], ['r1', None], ['r1'], [None, None]):
+            written = []
+
+            def hook(ev, call, env, written=written):
+                d = dotted(call.func) or ''
+                if d == 'self.write_tags':
+                    return None
+                if isinstance(call.func, ast.Attribute) and call.func.attr == 'write' and not d.startswith('self.'):
+                    written.append(ev.ev(call.args[0], env))
+                    return None
+                return NotImplemented
+            env = {'self.reads': list(reads)}
+            for mn_ in ('has_R1', 'has_R2', 'get_R1', 'get_R2', '__iter__', '__getitem__', '__len__'):
+                if mn_ in meths:
+                    env['self.' + mn_] = LocalFn(meths[mn_], env, bound='<self>')
+            n += 1
+
+            class Slots(list):
+                """stands for the fragment object: iterating / indexing it goes through the mate slots, as Fragment.__iter__ / __getitem__ do (checked below)"""
+                def __len__(self):
+                    return sum(1 for r in list.__iter__(self) if r is not None)
+            if '__iter__' in meths and list(run_function(meths['__iter__'], ['<self>'], env=env, budget=2000)) != list(reads):
+                raise Unfoldable('Fragment.__iter__ does not iterate the mate slots')
+            run_function(f, [Slots(reads), '<handle>'], env=env, call_hook=hook, budget=20000)
+            want = [r for r in reads if r is not None]
+            if written != want and bad is None:
+                bad = {'mate slots': reads, 'written': list(written), 'expected': want}
+    except (Unfoldable, Raised, Exception) as e_:
+        ctx.emit(rid, False, FRAGMENT, f, f'Fragment.write_pysam is outside the interpreted subset ({type(e_).__name__}: {str(e_)[:80]})', key='fragment-writes-all-reads', undecided=True)
+        return
+    ctx.counters['interpreted_cases'] = ctx.counters.get('interpreted_cases', 0) + n
+    ctx.emit(rid, bad is None, FRAGMENT, f, f'Fragment.write_pysam on {n} slot occupancies: every present read is written once' if bad is None else
+             f'Fragment.write_pysam does not write every read of the fragment: {bad} (a mate that reached the tagger alone is silently left out of the output)', key='fragment-writes-all-reads', witness=bad,
+             what='Fragment.write_pysam: a present read is not written')
+
+
+@rule('C05', 'C05-R12', 'every read of every written fragment reaches the output: Fragment.write_pysam writes each present mate, whichever slots are occupied (orphan mates included)')
+def r12(ctx):
+    fragment_writes_all_reads(ctx, 'C05-R12')
 
 
 META = {
